@@ -499,6 +499,7 @@ def run(repo: Repo, ctx) -> None:
     _r7(repo, ctx)
     _r8(repo, ctx)
     _r9(repo, ctx)
+    _r10(repo, ctx)
 
 
 OBJS = 'edb.schema.objects'
@@ -723,6 +724,60 @@ def _r9(repo: Repo, ctx) -> None:
                    ok, f'a qualified name is stored without the '
                    f'module-exists test', f.loc,
                    sample='unknown module -> raise')
+
+
+def _r10(repo: Repo, ctx) -> None:
+    ctx.floor('C04.R10', 15)
+    # (a) a command is applied to the schema its result is bound to: a
+    #     scratch copy never becomes the result
+    n = 0
+    for m in repo.modules_in('edb.schema'):
+        for f in repo._funcs_of(m):
+            for a in walk_no_nested(f.node):
+                if not (isinstance(a, ast.Assign) and len(a.targets) == 1
+                        and isinstance(a.targets[0], ast.Name)
+                        and isinstance(a.value, ast.Call)
+                        and isinstance(a.value.func, ast.Attribute)
+                        and a.value.func.attr == 'apply'
+                        and a.value.args
+                        and isinstance(a.value.args[0], ast.Name)
+                        and a.targets[0].id in f.params()
+                        and kwarg(a.value, 'schema') is None
+                        and norm(a.value.func.value) != 'sd'
+                        and 'schema' in a.targets[0].id):
+                    continue
+                n += 1
+                ok = a.value.args[0].id == a.targets[0].id
+                if not ok:
+                    ctx.saw(f)
+                ctx.ob('C04.R10', f'{f.qualname}:apply-threads-'
+                       f'{a.targets[0].id}@L{a.lineno - f.node.lineno}', ok,
+                       f'{f.qualname}: `{norm(a)[:60]}` applies the command '
+                       f'to `{a.value.args[0].id}` but continues with the '
+                       f'result as `{a.targets[0].id}`: a scratch schema '
+                       f'(names delisted, objects half removed) becomes the '
+                       f'schema of record, so names and objects disagree',
+                       f.loc, sample='X = cmd.apply(X, context)',
+                       nontrivial=not ok)
+    if n < 15:
+        raise AnalysisError(f'C04.R10: only {n} threaded apply sites')
+    # (b) a property blocks the drop of what it refers to unless it is a
+    #     link end point by descent (not by name)
+    ib = repo.func('edb.schema.properties.Property.is_blocking_ref')
+    ctx.saw(ib)
+    rets = [norm(r.value) for r in ast.walk(ib.node)
+            if isinstance(r, ast.Return) and r.value is not None]
+    ok = rets == ['not self.is_endpoint_pointer(schema)']
+    ep = repo.func('edb.schema.pointers.Pointer.is_endpoint_pointer')
+    t = norm(ep.node)
+    ok2 = "'std::source'" in t and "'std::target'" in t and 'issubclass' in t
+    ctx.ob('C04.R10', 'Property.is_blocking_ref:endpoints-by-descent',
+           ok and ok2,
+           f'Property.is_blocking_ref returns {rets}: an ordinary property '
+           f'that is merely *named* source / target must still block the '
+           f'drop of the type it refers to, otherwise the drop is accepted '
+           f'and the property points at a missing object', ib.loc,
+           sample='not self.is_endpoint_pointer(schema)')
 
 
 def _r6(repo: Repo, ctx) -> None:
